@@ -110,6 +110,8 @@ class World:
             shutil.rmtree(self.co)
         b = Branch.open(self.store.url + "b")
         wt = b.create_checkout(self.co, lightweight=True)
+        if name == "empty":
+            wt.set_root_id(W.ROOT_ID)
         if name == "merge":
             with wt.lock_write():
                 wt.set_parent_ids([b"r1", b"s1"])
@@ -133,9 +135,11 @@ _W = None
 
 
 def world():
+    """The world of this process (a forked worker never reuses its parent's directories)."""
     global _W
-    if _W is None:
+    if _W is None or _W.pid != os.getpid():
         _W = World()
+        _W.pid = os.getpid()
     return _W
 
 
@@ -225,9 +229,26 @@ def classify(basis, work, specific, exclude):
             cls[fid] = "sel"
         else:
             cls[fid] = "amb"
+    # path closure: an id sitting (in either tree) at the old or new path of a possibly selected id is
+    # involved in the same paths; the statement does not say whether it is selected
+    changed = True
+    while changed:
+        changed = False
+        touched = set()
+        for fid, c in cls.items():
+            if c != "unsel":
+                touched.update(p for p in (bpaths.get(fid), wpaths.get(fid)) if p is not None)
+        for fid, c in cls.items():
+            if c == "unsel" and (bpaths.get(fid) in touched or wpaths.get(fid) in touched):
+                old, new = bpaths.get(fid), wpaths.get(fid)
+                if not ((old is None or W.inside_any(old, exclude)) and (new is None or W.inside_any(new, exclude))):
+                    cls[fid] = "amb"
+                    changed = True
     # ancestors of a (possibly) selected new path may have to be committed for a valid tree
     for fid in list(cls):
-        if cls[fid] != "unsel" and fid in work:
+        new = wpaths.get(fid)
+        named = new is not None and specific is not None and W.inside_any(new, specific)
+        if (cls[fid] != "unsel" or named) and fid in work:
             p = work[fid][0]
             seen = set()
             while p in work and p not in seen:
@@ -236,6 +257,35 @@ def classify(basis, work, specific, exclude):
                     cls[p] = "amb"
                 p = work[p][0]
     return cls
+
+
+def strict_tree(basis, work, specific, exclude):
+    """The tree asked for under the plain reading (selected iff old or new path under a selected path and
+    neither under an excluded one), by id; used only to tell refusals of unsatisfiable selections."""
+    bpaths = W.paths_of(basis)
+    wpaths = W.paths_of(work)
+    exclude = exclude or []
+    out = {}
+    for fid in set(basis) | set(work):
+        old, new = bpaths.get(fid), wpaths.get(fid)
+        sel = ((old is not None and (specific is None or W.inside_any(old, specific)))
+               or (new is not None and (specific is None or W.inside_any(new, specific))))
+        exc = (old is not None and W.inside_any(old, exclude)) or (new is not None and W.inside_any(new, exclude))
+        e = norm(work.get(fid)) if (sel and not exc) else basis.get(fid)
+        if e is not None:
+            out[fid] = e
+    return out
+
+
+def well_formed(entries):
+    seen = set()
+    for fid, e in entries.items():
+        if e[0] != W.ROOT_ID and (e[0] not in entries or entries[e[0]][2] != "directory"):
+            return False
+        if (e[0], e[1]) in seen:
+            return False
+        seen.add((e[0], e[1]))
+    return all(p is not None for p in W.paths_of(entries).values())
 
 
 def norm(e):
@@ -337,7 +387,18 @@ def check_case(acc, w, st, hist, ops, specific, exclude, snap, tdir, allow_point
                           dict(case, error=repr(e)))
             return
         if name not in REFUSALS:
-            acc.violation("commit:%s:%s" % (name, _frame(e)), dict(case, error=repr(e)[:300]))
+            wt = w.open()
+            same = (W.wt_entries(wt) == work and changed_ids(wt) == st["changed"] and mwt.dir_snapshot(w.co) == st["disk"])
+            if same and not well_formed(strict_tree(basis, work, specific, exclude)):
+                # the selection splits changes that depend on each other: no well-formed tree to record
+                acc.outcomes.add(("refused-unsatisfiable-selection", name))
+                acc.count("refused:unsatisfiable-selection")
+                return
+            if same and name == "RootMissing" and not st["revs"] and (specific is not None or exclude):
+                acc.outcomes.add(("refused-first-commit-without-root", name))
+                acc.count("refused:RootMissing")
+                return
+            acc.violation("commit:%s:%s" % (name, _frame(e)), dict(case, error=repr(e)[:300], tree_unchanged=same))
             return
         if name == "CannotCommitSelectedFileMerge" and not (len(st["parents"]) > 1 and (specific is not None or exclude)):
             acc.violation("commit:refused-without-reason:%s" % name, case)
@@ -587,7 +648,8 @@ def run(ctx):
     depth = ctx.q(2, 3)
     full_depth = ctx.q(1, 2)
     states, raw = generate_states(ctx, hists, depth)
-    items = [(h, ops, len(ops) <= full_depth) for h, ops in states]
+    # (selected-file commits of a pending merge are all refused: one level of states is enough there)
+    items = [(h, ops, len(ops) <= full_depth) for h, ops in states if h != "merge" or len(ops) <= 1]
     acc = par.merge(par.pmap(_case_work, items, seed=ctx.seed, chunks_per_job=8))
     # determinism audit: the first states twice
     a1 = _case_work(items[1:3])
